@@ -1,6 +1,7 @@
 package otto
 
 import (
+	"errors"
 	"reflect"
 	"strconv"
 	"strings"
@@ -50,6 +51,8 @@ func (o *goSliceObject) setLength(value Value) {
 
 	wantInt := int(want)
 	switch {
+	case wantInt < 0:
+		panic(goValueError(errors.New("RangeError: Invalid array length")))
 	case wantInt == o.value.Len():
 		// No change needed.
 	case wantInt < o.value.Cap():
